@@ -342,19 +342,10 @@ def run(ctx):
             bound = t["dtype_bound"] if key == "dtype_err" else lim
             m = t[key] / bound
             wk = key + ("/(output resolution + scale x 2^(1-bits))" if key == "dtype_err" else "/2^(1-bits)")
-            # known findings: F-SG4 on the clauses that move the gain of a plan whose poly-phase stage carries it; F-PH1 on DC / spectral clauses
-            g = {"scale_pow2_err": t["scale_pow2"], "scale_gen_err": t["scale_gen"], "dc_scaled_err": t["scale_gen"], "dtype_err": t["gain_eff"]}.get(key)
-            cap4 = S.sg4_cap(t["pclass"], g, t["bits"]) if g is not None else 0.0
-            if cap4:
-                wk += " [F-SG4 signature]"
-            elif t["flags"].get("F-PH1") and key in ("dc_err", "dc_scaled_err", "shift_reduced_err"):
+            # known finding F-PH1 on DC / spectral clauses (F-SG4 is repaired in /repo, cd8ddc4: the scale / datatype clauses carry no allowance)
+            if t["flags"].get("F-PH1") and key in ("dc_err", "dc_scaled_err", "shift_reduced_err"):
                 wk += " [F-PH1 signature]"
             worst[wk] = max(worst.get(wk, 0), m)
-            if m > 1 and cap4 and t[key] <= bound + cap4:
-                ctx.known("F-SG4", "%s: %s: gain %.4g carried by the poly-phase stage (datatypes %d -> %d, io_spec.scale %.4g in the datatype run): differs by %.3g "
-                                   "of full scale = %.1f x bound [plan %s, engine %s]"
-                          % (t["label"], what, g, t["dtypes"][0], t["dtypes"][1], t["dtype_scale"], t[key], m, t["plan"], t["engine"]))
-                continue
             if m > 1 and key in ("dc_err", "dc_scaled_err", "shift_reduced_err"):
                 fid = S.known_excess(t, "rowsum" if key.startswith("dc") else "res", m)
                 if fid == "F-PH1":
@@ -418,9 +409,9 @@ def run(ctx):
         "checks/_signal.py only returns if an F1 entry is listed as known again)",
         "datatype clause: the typed run may differ from io_spec.scale x the float64 run by the output format's resolution (integer rounding, TPDF "
         "dither for int16, float32 mantissa) plus scale x 2^(1-bits)",
-        "known findings of the pinned tree (known_findings.d/signal.json: F-PH1 on DC / spectral clauses, F-SG4 on the clauses that move the gain of a "
-        "plan whose poly-phase stage carries it) are recognised by a configuration/plan signature AND a symptom bound; their margins are listed "
-        "separately under worst_margins ([... signature])",
+        "known finding F-PH1 (known_findings.d/signal.json) is recognised on the DC / row-sum / reduced-period clauses by a configuration/plan signature "
+        "AND a symptom bound; its margins are listed separately under worst_margins ([F-PH1 signature]); F-SG4 (first poly-phase tap not scaled by "
+        "the gain) is repaired in /repo (cd8ddc4, listed as fixed): the scale / DC / datatype clauses are held to their ordinary tolerance everywhere",
     )
     if broken and not ctx.violations:
         ctx.violation("Lean obligations of C12 no longer check: " + "; ".join(broken)[:1500],
